@@ -421,8 +421,7 @@ class BaseCollection(BaseDisplayRepr):
             recursive=recursive,
         )
         for child in remove_objects:
-            if child in self_objects:
-                rec_obj_remover(self, child)
+            if child in self_objects and rec_obj_remover(self, child):
                 child._parent = None
             else:
                 if errors == "raise":
